@@ -208,7 +208,7 @@ func genQOps(rc *RunCtx, c QCfg) []Op {
 				continue
 			}
 			restarts++
-			o = Op{Kind: "restart", A: int64(r.Intn(2))}
+			o = Op{Kind: "restart", A: int64(r.Intn(4)), B: int64(r.Intn(8)), C: int64(r.Range(1, 4))}
 		}
 		if o.Kind != "adv" && o.Kind != "stats" && o.Kind != "restart" && o.Kind != "sub" && o.Kind != "cls" && r.Chance(w.burst, 100) {
 			o.Burst = true
@@ -216,7 +216,7 @@ func genQOps(rc *RunCtx, c QCfg) []Op {
 		add(o)
 	}
 	if rc.Prop == "C05" && restarts == 0 {
-		add(Op{Kind: "restart", A: int64(r.Intn(2))})
+		add(Op{Kind: "restart", A: int64(r.Intn(4)), B: int64(r.Intn(8)), C: int64(r.Range(1, 4))})
 		for i := 0; i < r.Range(0, 8); i++ {
 			add(Op{Kind: "pub", A: int64(r.Intn(3)), B: int64(r.Intn(8))})
 		}
@@ -409,8 +409,17 @@ func (w *qWorld) exec(op Op) {
 	case "pub":
 		completion = w.opPub(op)
 	case "sub":
-		w.settleIfBurst()
+		// a subscribe may race whatever was just sent without waiting (e.g. the
+		// last consumer of an ephemeral channel leaving); pending publishes and
+		// admin calls are completed first
+		if len(w.pending) > 0 {
+			w.settleIfBurst()
+		}
 		w.opSub(op)
+		if w.inBurst {
+			w.settle()
+			w.afterSettle()
+		}
 	case "rdy":
 		if co := w.liveConsumer(op.A); co != nil {
 			if co.Closing {
